@@ -231,6 +231,7 @@ run_mod_op(int op, const vset_t *mods, const vset_t *abase, const vset_t *bset, 
 		caps[0] = ndm; caps[1] = 2 * ndm; caps[2] = 2 * ndm + 1;
 		for (ic = 0; ic < 3; ic ++) {
 			size_t ca = caps[ic], cm = (im & 1) ? ca : ndm;
+			if (exhaustive8 && 2 == ic) continue;	/* exhaustive operand sets: tight and double capacity */
 			if (!vh_begin(mod_name[op])) continue;
 			d_op = mod_name[op]; d_a = m; d_cap = ca; d_set = "operands for this modulus (a= is the modulus)";
 			vh_publish_desc();
@@ -240,13 +241,19 @@ run_mod_op(int op, const vset_t *mods, const vset_t *abase, const vset_t *bset, 
 				for (i = 0; i < nsq && na < MAXOPS; i ++) { r_mulmod(&as[na], &as[i], &as[i], &m); na ++; }
 			}
 			if (!two_operand) { nb = 1; bs[0] = zero; }
-			else if (M_ADD == op || M_SUB == op || M_MULT == op) nb = operands_for(&m, bset, exhaustive8, bs, MAXOPS);
+			else if (M_ADD == op || M_SUB == op || M_MULT == op) nb = operands_for(&m, bset, exhaustive8, bs, MAXOPS);	/* second operand: bset plus the values hugging m */
 			else { nb = bset->n; for (j = 0; j < nb; j ++) bs[j] = bset->arr[j]; }
 			for (i = 0; i < na; i ++) {
 				if (r_ndigits(&as[i]) > ca) continue;
 				for (j = 0; j < nb; j ++) {
 					if (!mod_domain(op, &as[i], &bs[j], &m)) continue;
 					CALL_COUNT();
+					if (exhaustive8 && two_operand) {	/* stale fill alternates instead of running both */
+						g_fill = ((i ^ j) & 1) ? 0x00 : 0xA5;
+						exec_mod(op, &as[i], ca, &bs[j], &m, cm, g_fill, &r1);
+						check_mod(op, &as[i], ca, &bs[j], &m, cm, &r1);
+						continue;
+					}
 					g_fill = 0xA5;
 					exec_mod(op, &as[i], ca, &bs[j], &m, cm, 0xA5, &r1);
 					check_mod(op, &as[i], ca, &bs[j], &m, cm, &r1);
@@ -269,36 +276,36 @@ run_mod(void) {
 #if C01_SCOPE == 0
 	ex8 = 1;
 	/* every 1-digit modulus with every operand below it ... */
-	run_mod_op(M_MOD, &VS_EX1, &VS_A3, NULL, 0);
-	run_mod_op(M_ADD, &VS_EX1, &VS_A2, &VS_A2, 1);
-	run_mod_op(M_SUB, &VS_EX1, &VS_A2, &VS_A2, 1);
-	run_mod_op(M_MULT, &VS_EX1, &VS_A2, &VS_A2, 1);
-	run_mod_op(M_MULT_AL, &VS_EX1, &VS_A2, NULL, 1);
-	run_mod_op(M_SQUARE, &VS_EX1, &VS_A2, NULL, 1);
-	run_mod_op(M_MULT_DIGIT, &VS_EX1, &VS_A2, &VS_DX, 1);
-	run_mod_op(M_EXP, &VS_EX1, &VS_A2, &VS_EXPS, 1);
-	run_mod_op(M_EXP_DIGIT, &VS_EX1, &VS_A2, &VS_EXPS, 1);
-	run_mod_op(M_INV, &VS_EX1, &VS_A2, NULL, 1);
-	run_mod_op(M_REDUCE, &VS_EX1, &VS_A3, NULL, 0);
+	TIMED(mod_name[M_MOD], run_mod_op(M_MOD, &VS_EX1, &VS_A3, NULL, 0));
+	TIMED(mod_name[M_ADD], run_mod_op(M_ADD, &VS_EX1, &VS_A2, &VS_A2, 1));
+	TIMED(mod_name[M_SUB], run_mod_op(M_SUB, &VS_EX1, &VS_A2, &VS_A2, 1));
+	TIMED(mod_name[M_MULT], run_mod_op(M_MULT, &VS_EX1, &VS_A2, &VS_A2, 1));
+	TIMED(mod_name[M_MULT_AL], run_mod_op(M_MULT_AL, &VS_EX1, &VS_A2, NULL, 1));
+	TIMED(mod_name[M_SQUARE], run_mod_op(M_SQUARE, &VS_EX1, &VS_A2, NULL, 1));
+	TIMED(mod_name[M_MULT_DIGIT], run_mod_op(M_MULT_DIGIT, &VS_EX1, &VS_A2, &VS_DX, 1));
+	TIMED(mod_name[M_EXP], run_mod_op(M_EXP, &VS_EX1, &VS_A2, &VS_EXPS, 1));
+	TIMED(mod_name[M_EXP_DIGIT], run_mod_op(M_EXP_DIGIT, &VS_EX1, &VS_A2, &VS_EXPS, 1));
+	TIMED(mod_name[M_INV], run_mod_op(M_INV, &VS_EX1, &VS_A2, NULL, 1));
+	TIMED(mod_name[M_REDUCE], run_mod_op(M_REDUCE, &VS_EX1, &VS_A3, NULL, 0));
 	mods = &VS_A3;	/* ... and the alphabet moduli up to 3 digits */
 #elif C01_SCOPE == 1
 	mods = &VS_A3;
 #else
 	mods = &VS_A2;
 #endif
-	run_mod_op(M_MOD, mods, g_small, NULL, 0);
-	run_mod_op(M_ADD, mods, ops2, ops2, 0);
-	run_mod_op(M_SUB, mods, ops2, ops2, 0);
-	run_mod_op(M_MULT, mods, ops2, ops2, 0);
-	run_mod_op(M_MULT_AL, mods, ops2, NULL, 0);
-	run_mod_op(M_SQUARE, mods, ops2, NULL, 0);
-	run_mod_op(M_MULT_DIGIT, mods, ops2, &VS_DX, 0);
-	run_mod_op(M_EXP, &VS_A2, &VS_D, &VS_EXPS, 0);
-	run_mod_op(M_EXP_DIGIT, &VS_A2, &VS_D, &VS_EXPS, 0);
-	run_mod_op(M_INV, mods, ops2, NULL, 0);
-	run_mod_op(M_REDUCE, mods, g_small, NULL, 0);
+	TIMED(mod_name[M_MOD], run_mod_op(M_MOD, mods, g_small, NULL, 0));
+	TIMED(mod_name[M_ADD], run_mod_op(M_ADD, mods, ops2, ops2, 0));
+	TIMED(mod_name[M_SUB], run_mod_op(M_SUB, mods, ops2, ops2, 0));
+	TIMED(mod_name[M_MULT], run_mod_op(M_MULT, mods, ops2, &VS_D, 0));
+	TIMED(mod_name[M_MULT_AL], run_mod_op(M_MULT_AL, mods, ops2, NULL, 0));
+	TIMED(mod_name[M_SQUARE], run_mod_op(M_SQUARE, mods, ops2, NULL, 0));
+	TIMED(mod_name[M_MULT_DIGIT], run_mod_op(M_MULT_DIGIT, mods, ops2, &VS_DX, 0));
+	TIMED(mod_name[M_EXP], run_mod_op(M_EXP, &VS_A2, &VS_D, &VS_EXPS, 0));
+	TIMED(mod_name[M_EXP_DIGIT], run_mod_op(M_EXP_DIGIT, &VS_A2, &VS_D, &VS_EXPS, 0));
+	TIMED(mod_name[M_INV], run_mod_op(M_INV, mods, ops2, NULL, 0));
+	TIMED(mod_name[M_REDUCE], run_mod_op(M_REDUCE, mods, g_small, NULL, 0));
 	/* prime moduli: Legendre symbol and square roots, every residue for primes < 2^8 in scope 0 */
-	run_mod_op(M_LEGENDRE, &VS_PRIMES, ops2, NULL, ex8);
-	run_mod_op(M_SQRT, &VS_PRIMES, ops2, NULL, ex8);
+	TIMED(mod_name[M_LEGENDRE], run_mod_op(M_LEGENDRE, &VS_PRIMES, ops2, NULL, ex8));
+	TIMED(mod_name[M_SQRT], run_mod_op(M_SQRT, &VS_PRIMES, ops2, NULL, ex8));
 	printf("NOTE\tmod_sqrt_refused_although_root_exists=%llu\n", (unsigned long long)g_sqrt_refused_qr);
 }
